@@ -174,6 +174,10 @@ STAGES = {
                                                     POLICIES='{"mandatory", "none"}', STARTTLSADV='{TRUE}',
                                                     AUTHTYPES='{"PLAIN-NOENC", "LOGIN-NOENC", "CRAM-MD5", "XOAUTH2", "SCRAM-SHA-256", "AUTODISCOVER"}',
                                                     AUTHLISTS='{{"PLAIN", "LOGIN", "CRAM-MD5", "XOAUTH2", "SCRAM-SHA-1", "SCRAM-SHA-256", "SCRAM-SHA-1-PLUS", "SCRAM-SHA-256-PLUS"}}', LOGAUTH='BOOLEAN', LOGGERS='{"capture", "std", "json"}')),
+            # a second smtp.Client.Auth on the same client after the first one failed
+            ('rawauth-retry-b1', 'Session', cfg(OP='"RawAuth"', N='1', MAXR='1', BUDGET='1', CAPSETS='{{}}', CLASSES='{"p5", "mal", "t4"}', VARIANTS='{"authretry"}',
+                                                AUTHTYPES='{"PLAIN-NOENC", "LOGIN-NOENC", "CRAM-MD5", "XOAUTH2", "SCRAM-SHA-256"}',
+                                                AUTHLISTS='{{"PLAIN", "LOGIN", "CRAM-MD5", "XOAUTH2", "SCRAM-SHA-1", "SCRAM-SHA-256", "SCRAM-SHA-1-PLUS", "SCRAM-SHA-256-PLUS"}}', LOGAUTH='BOOLEAN', LOGGERS='{"capture", "std"}')),
             # smtp.Client.Close called by another goroutine between two commands of the exchange
             ('rawauth-concurrent-close', 'Session', cfg(OP='"RawAuth"', N='1', MAXR='1', BUDGET='1', CAPSETS='{{}}', CLASSES='{"xclose"}',
                                           AUTHTYPES='{"PLAIN-NOENC", "LOGIN-NOENC", "CRAM-MD5", "XOAUTH2", "SCRAM-SHA-1", "SCRAM-SHA-256"}',
